@@ -61,7 +61,107 @@ impl L {
     }
 }
 
+static SPILLS: AtomicU64 = AtomicU64::new(0);
+static SPILL_AT: AtomicU64 = AtomicU64::new(0);
+static THIEF_GO: std::sync::atomic::AtomicBool = std::sync::atomic::AtomicBool::new(false);
+static THIEF_DONE: std::sync::atomic::AtomicBool = std::sync::atomic::AtomicBool::new(false);
+
+/// Forced interleaving for the spill loop of a full ordered local queue (WorkStealQueue.tla: the owner's spill
+/// passes against sibling steals): the owner fills its queue and pushes once more; when it has moved `after`
+/// items to the shared queue (the `spill` hook event is raised inside the loop) it is held while a sibling
+/// pops until nothing is left anywhere, then released. The push must still return.
+fn run_forced(sc: &Value, idx: u64) {
+    let cap = sc["cap"].as_u64().unwrap() as usize;
+    let after = sc["after"].as_u64().unwrap_or(1);
+    rec(json!({"ev": "creset", "scenario": sc["id"], "threads": 2, "cap": cap, "ordered": true}));
+    SPILLS.store(0, Ordering::SeqCst);
+    SPILL_AT.store(after, Ordering::SeqCst);
+    THIEF_GO.store(false, Ordering::SeqCst);
+    THIEF_DONE.store(false, Ordering::SeqCst);
+    install_hook_sink(Some(Box::new(|m| {
+        if m.get("ev").and_then(Value::as_str) == Some("spill") && SPILLS.fetch_add(1, Ordering::SeqCst) + 1 == SPILL_AT.load(Ordering::SeqCst) {
+            THIEF_GO.store(true, Ordering::SeqCst);
+            let t0 = std::time::Instant::now();
+            while !THIEF_DONE.load(Ordering::SeqCst) && t0.elapsed() < Duration::from_secs(2) {
+                std::thread::yield_now();
+            }
+        }
+        None
+    })));
+    let q: &'static OrderedWorkStealQueue<i32> = Box::leak(Box::new(OrderedWorkStealQueue::new(2, cap)));
+    let owner = SendPtr(q.local_queue());
+    let thief = SendPtr(q.local_queue());
+    let th = std::thread::spawn(move || {
+        let thief = thief;
+        let mut log = vec![];
+        while !THIEF_GO.load(Ordering::SeqCst) {
+            std::thread::yield_now();
+        }
+        for _ in 0..(3 * cap + 3) {
+            progress();
+            if let Some(v) = thief.0.pop() {
+                log.push((CSEQ.fetch_add(1, Ordering::SeqCst), 1u8, v));
+            }
+        }
+        THIEF_DONE.store(true, Ordering::SeqCst);
+        (thief, log)
+    });
+    let mut all: Vec<(u64, u8, i32)> = vec![];
+    for k in 0..=(cap as i32) {
+        progress();
+        let item = 1_000_000 + k + 1;
+        all.push((CSEQ.fetch_add(1, Ordering::SeqCst), 0, item));
+        // the last push finds the queue full and spills
+        owner.0.push_with_priority(i64::from(k % 2), item);
+    }
+    // (if the queue never spilled, let the sibling go anyway)
+    THIEF_GO.store(true, Ordering::SeqCst);
+    let thief = match th.join() {
+        Ok((l, log)) => {
+            all.extend(log);
+            Some(l)
+        }
+        Err(e) => {
+            rec(json!({"ev": "died", "how": "panic", "msg": panic_msg(&e), "scenario": idx, "step": 0}));
+            None
+        }
+    };
+    open_coroutine_core::common::verif::set_sink(None);
+    all.sort();
+    for (_, kind, item) in &all {
+        rec(json!({"ev": if *kind == 0 { "cpush" } else { "cpop" }, "item": item}));
+    }
+    rec(json!({"ev": "quiesce", "glen": q.len()}));
+    loop {
+        progress();
+        let v = q.pop().unwrap_or(0);
+        rec(json!({"ev": "dgpop", "item": v}));
+        if v == 0 {
+            break;
+        }
+    }
+    for (i, l) in [Some(&owner), thief.as_ref()].into_iter().enumerate() {
+        let Some(l) = l else { continue };
+        loop {
+            progress();
+            let v = l.0.pop().unwrap_or(0);
+            rec(json!({"ev": "dlpop", "q": i + 1, "item": v}));
+            if v == 0 {
+                break;
+            }
+        }
+    }
+    let v = q.pop().unwrap_or(0);
+    rec(json!({"ev": "dgpop", "item": v}));
+    rec(json!({"ev": "cend", "scenario": sc["id"], "drained": true, "spills": SPILLS.load(Ordering::SeqCst)}));
+    std::mem::forget(owner);
+    std::mem::forget(thief);
+}
+
 fn run(sc: &Value, idx: u64) {
+    if sc.get("force").and_then(Value::as_str) == Some("spill_steal") {
+        return run_forced(sc, idx);
+    }
     let threads = sc["threads"].as_u64().unwrap() as usize;
     let cap = sc["cap"].as_u64().unwrap() as usize;
     let ordered = sc["ordered"].as_bool().unwrap();
